@@ -41,7 +41,19 @@ type cacheEntry struct {
 	Seconds float64 `json:"seconds"`
 }
 
+// hint: how an obligation (identified by the SHA-256 of its full query text) was discharged
+// before. It is not a cached answer: the recorded solver is run again, with the recorded seed
+// and a timeout scaled from the recorded time; z3 and cvc5 are deterministic for a fixed input
+// and seed, so an unchanged obligation is re-proved reproducibly whatever VERIF_SEED is.
+type hint struct {
+	Solver  string  `json:"solver"`
+	Seed    int     `json:"seed"`
+	Seconds float64 `json:"seconds"`
+}
+
 type Solver struct {
+	hints    map[string]hint
+	newHints map[string]hint
 	cacheDir string
 	workDir  string
 	timeout  int
@@ -57,7 +69,7 @@ type Solver struct {
 func NewSolver(cacheDir, workDir string, timeout, seed int) *Solver {
 	os.MkdirAll(cacheDir, 0o755)
 	os.MkdirAll(workDir, 0o755)
-	return &Solver{cacheDir: cacheDir, workDir: workDir, timeout: timeout, seed: seed, Stats: map[string]int{}}
+	return &Solver{cacheDir: cacheDir, workDir: workDir, timeout: timeout, seed: seed, Stats: map[string]int{}, hints: map[string]hint{}, newHints: map[string]hint{}}
 }
 
 var procSlots = make(chan struct{}, 16)
@@ -92,6 +104,36 @@ func runOne(ctx context.Context, sd solverDef, file string, timeout, seed int) (
 	return "error", s
 }
 
+// LoadHints reads the hints file (missing file: no hints).
+func (sv *Solver) LoadHints(file string) {
+	data, err := os.ReadFile(file)
+	if err != nil {
+		return
+	}
+	json.Unmarshal(data, &sv.hints)
+}
+
+// SaveHints merges the hints recorded in this run into the file.
+func (sv *Solver) SaveHints(file string) {
+	all := map[string]hint{}
+	if data, err := os.ReadFile(file); err == nil {
+		json.Unmarshal(data, &all)
+	}
+	sv.mu.Lock()
+	for k, h := range sv.newHints {
+		all[k] = h
+	}
+	sv.mu.Unlock()
+	data, _ := json.Marshal(all)
+	os.WriteFile(file, data, 0o644)
+}
+
+func (sv *Solver) note(key string, sd solverDef, seed int, secs float64) {
+	sv.mu.Lock()
+	sv.newHints[key[:24]] = hint{sd.name, seed, secs}
+	sv.mu.Unlock()
+}
+
 // Solve decides one query. unsat = obligation discharged.
 func (sv *Solver) Solve(name, query string) (result, solver string, secs float64, detail string) {
 	h := sha256.Sum256([]byte(query))
@@ -109,6 +151,28 @@ func (sv *Solver) Solve(name, query string) (result, solver string, secs float64
 	os.WriteFile(file, []byte(query), 0o644)
 	defer os.Remove(file)
 	start := time.Now()
+	// stage 0: the way this very query was discharged before, with a generous limit
+	if h, ok := sv.hints[key[:24]]; ok && !sv.smokeOnly {
+		for _, sd := range solvers {
+			if sd.name != h.Solver {
+				continue
+			}
+			t := int(h.Seconds*6) + 15
+			if t < sv.timeout {
+				t = sv.timeout
+			}
+			r, out := runOne(context.Background(), sd, file, t, h.Seed)
+			if r == "unsat" {
+				secs = time.Since(start).Seconds()
+				sv.store(cfile, r, sd.name, secs)
+				sv.note(key, sd, h.Seed, secs)
+				return r, sd.name + "(hint)", secs, ""
+			}
+			if r == "sat" {
+				return "sat", sd.name, time.Since(start).Seconds(), out
+			}
+		}
+	}
 	// stage 1: z3-new alone, short
 	short := 3
 	if sv.timeout < short {
@@ -118,6 +182,7 @@ func (sv *Solver) Solve(name, query string) (result, solver string, secs float64
 	if r == "unsat" {
 		secs = time.Since(start).Seconds()
 		sv.store(cfile, r, solvers[0].name, secs)
+		sv.note(key, solvers[0], sv.seed, secs)
 		return r, solvers[0].name, secs, ""
 	}
 	firstSat := ""
@@ -131,13 +196,19 @@ func (sv *Solver) Solve(name, query string) (result, solver string, secs float64
 	// stage 2: race all
 	ctx, cancel := context.WithCancel(context.Background())
 	defer cancel()
-	type res struct{ r, out, solver string }
+	type res struct {
+		r, out, solver string
+		sd             solverDef
+		seed           int
+		t0             time.Time
+	}
 	ch := make(chan res, len(solvers))
 	for _, sd := range solvers {
 		sd := sd
 		go func() {
+			t0 := time.Now()
 			r, out := runOne(ctx, sd, file, sv.timeout, sv.seed)
-			ch <- res{r, out, sd.name}
+			ch <- res{r, out, sd.name, sd, sv.seed, t0}
 		}()
 	}
 	var details []string
@@ -148,6 +219,7 @@ func (sv *Solver) Solve(name, query string) (result, solver string, secs float64
 			cancel()
 			secs = time.Since(start).Seconds()
 			sv.store(cfile, "unsat", x.solver, secs)
+			sv.note(key, x.sd, x.seed, time.Since(x.t0).Seconds())
 			return "unsat", x.solver, secs, ""
 		}
 		if x.r == "sat" && firstSat == "" {
@@ -180,8 +252,9 @@ func (sv *Solver) Solve(name, query string) (result, solver string, secs float64
 		for _, j := range jobs {
 			j := j
 			go func() {
+				t0 := time.Now()
 				r, out := runOne(ctx3, j.sd, file, sv.timeout*3, j.seed)
-				ch3 <- res{r, out, fmt.Sprintf("%s(seed %d)", j.sd.name, j.seed)}
+				ch3 <- res{r, out, fmt.Sprintf("%s(seed %d)", j.sd.name, j.seed), j.sd, j.seed, t0}
 			}()
 		}
 		for range jobs {
@@ -190,6 +263,7 @@ func (sv *Solver) Solve(name, query string) (result, solver string, secs float64
 				cancel3()
 				secs = time.Since(start).Seconds()
 				sv.store(cfile, "unsat", x.solver, secs)
+				sv.note(key, x.sd, x.seed, time.Since(x.t0).Seconds())
 				return "unsat", x.solver, secs, ""
 			}
 			if x.r == "sat" {
